@@ -1266,6 +1266,52 @@ def m_result_map(it, S, t, callee, args):
     return ("upd", R, (((("dc", 0, "Ok"), ("f", 0, "0")), y), ((("dc", 1, "Err"), ("f", 0, "0")), project(v, (("dc", 1, "Err"), ("f", 0, "0"))))))
 
 
+@model("core::ops::range::RangeInclusive::new")
+def m_range_inclusive_new(it, S, t, callee, args):
+    return ("agg", "core::ops::range::RangeInclusive", 0, (args[0], args[1], K("bool", 0)))
+
+
+@model("core::ops::range::RangeInclusive::contains", "core::ops::range::Range::contains")
+def m_range_contains(it, S, t, callee, args):
+    # (a..=b).contains(&x)  <=>  a <= x <= b ;  (a..b).contains(&x)  <=>  a <= x < b   (std documentation; integer ranges only)
+    incl = "RangeInclusive" in norm_name(callee.get("pretty"))
+    rng = it.deref_value(S, args[0], 2, it.op_type(t["args"][0]))
+    x = it.deref_value(S, args[1], 2, it.op_type(t["args"][1]))
+    w = rng
+    while isinstance(w, tuple) and w[0] == "upd":
+        w = w[1]
+    if not (isinstance(w, tuple) and w[0] == "agg" and isinstance(w[1], str) and w[1].startswith("core::ops::range::Range") and len(w[3]) >= 2):
+        return None
+    ity = it.op_type(t["args"][1])
+    while ity.get("k") == "ref":
+        ity = ity["to"]
+    if ity.get("k") not in ("uint", "int"):
+        return None
+    a, b = w[3][0], w[3][1]
+    for v in (a, b, x):
+        if sv_type(v) is None and not is_const(v):
+            set_ty(v, tykey(ity))
+    k = 0 if incl else -1
+    if S.prove_le(a, x, 0) and S.prove_le(x, b, k):
+        return K("bool", 1)
+    if S.prove_le(x, a, -1) or S.prove_le(b, x, k - 1):
+        return K("bool", 0)
+    R = ("model", "range-contains", w[1], a, b, x)
+    set_ty(R, "bool")
+    it.cond[(R, 1)] = [("le", a, x, 0), ("le", x, b, k)]
+    neg = []
+    tr = ty_range(tykey(ity))
+    # one-sided when the other bound is the end of the type (or already known to hold)
+    if S.prove_le(a, x, 0):
+        neg = [("le", b, x, k - 1)]
+    elif S.prove_le(x, b, k):
+        neg = [("le", x, a, -1)]
+    if neg:
+        it.cond[(R, 0)] = neg
+    S.set_dom(R, Dom(0, 1))
+    return R
+
+
 @model("core::result::Result::map_err")
 def m_result_map_err(it, S, t, callee, args):
     # Ok(x) -> Ok(x), Err(e) -> Err(f(e)): the success value passes through unchanged whatever f is (the closure is analysed as
